@@ -311,6 +311,22 @@ def apply_body_rules(body, counts, dropped):
                 counts["R1_span_pair"] = counts.get("R1_span_pair", 0) + 1
                 i = e + rest.end()
                 continue
+        # R1c  tracing::trace_span!(..).in_scope(|| BLOCK)   =>   BLOCK
+        m = re.match(r"tracing::(?:trace|debug)_span!", body[i:])
+        if m and (i == 0 or not (body[i - 1].isalnum() or body[i - 1] in "_:")):
+            e = split_macro_call(body, i)
+            mm = re.match(r"\s*\.in_scope\(\s*\|\|\s*\{", body[e:]) if e else None
+            if mm:
+                bo = e + mm.end() - 1
+                be = match_brace(body, bo)
+                close = re.match(r"\s*\)", body[be:])
+                if close:
+                    dropped.append(body[i:bo] + " ... " + body[be:be + close.end()])
+                    counts["R1_in_scope"] = counts.get("R1_in_scope", 0) + 1
+                    inner = apply_body_rules(body[bo:be], counts, dropped)
+                    out.append(inner)
+                    i = be + close.end()
+                    continue
         # R1b  tracing::trace!(..);  / proto_err!(..);
         m = re.match(r"(tracing::(?:trace|debug|warn|info|error)!|proto_err!)", body[i:])
         if m and (i == 0 or not (body[i - 1].isalnum() or body[i - 1] in "_:")):
